@@ -93,6 +93,9 @@ HelperOK(r) ==
       [] r.fn = "cmp" -> D!DEq(out, D!DInt(D!DSign(D!DSub(a[1], a[2]))))
       [] r.fn = "abs" -> D!DEq(out, D!DAbs(a[1]))
       [] r.fn = "sign" -> D!DEq(out, D!DInt(D!DSign(a[1])))
+      \* sin(x)/x, 1 at and near 0;  a = <<x, sin x as libm gives it>>:  |out * x - sin x| <= 4 eps |x|
+      [] r.fn = "sinx_over_x" -> IF D!DIsZero(a[1]) THEN D!DEq(out, D!DOne)
+                                 ELSE D!DCmpAbs(D!DSub(D!DMul(out, a[1]), a[2]), D!DMul(D!DScale(Eps(t), 2), D!DAbs(a[1]))) <= 0
       [] r.fn = "iszero" -> D!DEq(out, b(D!DCmpAbs(a[1], a[2]) <= 0))
       [] r.fn \in {"cmpt", "equal", "eqabs", "eqrel"} ->
            LET diff == D!DAbs(D!DSub(a[1], a[2]))
